@@ -246,13 +246,21 @@ def build_world(case, audio_root: Path):
             tval = ["v one", "x:v one", "va\u0308lue 2", "v one", " v one "][n % 5]       # the third value is decomposed (a + U+0308)
             # every tag's term has the SAME name and its own label: the document format identifies a tag by (label, value)
             o = data.Tag(term=data.Term(name="verif:shared_name", label=tkey, definition="shared name, own label"), value=tval)
+            if n == 5 or n % 7 == 6:
+                # a SIMPLE-LABEL term (exactly what term_from_key builds) whose label is also the label of a term of the
+                # library's standard vocabulary (soundevent.terms): it must come back as the simple term it was
+                tkey = ["Genus", "Country", "Family", "Accuracy"][(n // 5) % 4]
+                o = data.Tag(term=data.term_from_key(tkey), value=tval)
             assert (tkey, tval) not in rev, "tag catalogue must be injective"
             rev[(tkey, tval)] = i
         elif k == "recording":
             base = {"inside": audio_root, "outside": audio_root.parent / "elsewhere",
                     "outside_prefix": Path(str(audio_root) + "_backup"),   # a sibling whose name merely starts like the directory
                     # a sibling whose name differs from the directory's only by letter case (another directory on a POSIX system)
-                    "outside_case": audio_root.parent / audio_root.name.swapcase()}[place]
+                    "outside_case": audio_root.parent / audio_root.name.swapcase(),
+                    # the audio directory is the current directory given as "." and the recording is given by an ABSOLUTE path that
+                    # lies elsewhere (run_paths sets A = Path(".")): the empty component list of "." is a prefix of nothing absolute
+                    "outside_cwd": Path(os.getcwd()).parent / "elsewhere abs"}[place]
             # same_path: every recording of the collection describes the SAME file (distinct uuids, one path) -- e.g. a direct and
             # a time-expanded description of one file; decided by the content of the case unless the case says so
             same = case.get("same_path", _h(case.get("ctype"), ",".join(sorted(map(str, case.get("sw", [])))), case.get("file")) % 4 == 0)
@@ -352,6 +360,8 @@ def diff(a, b, path="", out=None, limit=12):
     if isinstance(a, data.Term) and isinstance(b, data.Term):
         if a.label != b.label:
             out.append(path + ".label")
+        elif a == data.term_from_key(a.label) and b != a:
+            out.append(path + ".simple_term")     # a simple-label term loses nothing when stored as its label
         return out
     if isinstance(a, BaseModel) or isinstance(b, BaseModel):
         if type(a) is not type(b):
@@ -573,6 +583,8 @@ def run_paths(case, workdir: Path):
         A = Path("audio dir A.v2") if rel else tmp / "audio dir A.v2"
         if rel and (case.get("dir") or [""])[0] == "~":
             A = Path(".")        # the recordings are given as "~/x/<file>": a relative path whose first component is a tilde
+        if case.get("place") == "outside_cwd":
+            A = Path(".")        # the current directory itself; the recordings are absolute and elsewhere
         bk = case.get("bkind", "abs")
         first = (case.get("dir") or ["audio dir A.v2"])[0]
         B = {"abs": tmp / "moved" / "audio B", "rel": Path("moved") / "audio B", "rel_first": Path(first), "root": Path("/")}[bk]
